@@ -198,8 +198,11 @@ theorem legend_ok (cls : Classes) (text : Bytes) (toks : List Token) :
     `lineOk`   — `Pos.Line` is one more than the number of line feeds before `Pos.Offset`.
     None of them mentions token values (except a comment's), the lexer's rune columns, codes,
     quoted commodities, white space, characters outside the BMP or non-ASCII text: the defects
-    those shapes triggered are repaired.  The one remaining guard is the CR of a CRLF line end
-    inside a comment (`devCrComment`, finding crlf-comment-length). -/
+    those shapes triggered are repaired.  The last guard — no comment's value ends with the CR of
+    a CRLF line end (`devCrComment`, finding crlf-comment-length) — is repaired too: it is now a
+    THEOREM about the lexer model (`lexer_comment_no_cr`, HL/Props/C17Lexer.lean), for every text of the property's
+    domain (`crOnlyBeforeLf`: CR only as part of CRLF), so `ordered_disjoint_inline` and
+    `covers_lexeme` carry no guard any more. -/
 
 /-- **ordered_disjoint.**  For every text and every lexer output that honours the contract, the
     semantic tokens — including the tag tokens cut out of comments — are in document order and
@@ -214,11 +217,12 @@ theorem ordered_disjoint (cls : Classes) (text : Bytes) (toks : List Token)
       | nil => trivial
       | cons t r => simp only [Bound]; omega)).1
 
-/-- **ordered_disjoint_inline (partial).**  … and every token stays inside its line as the
-    client counts it (UTF-16 units, CRLF or LF line ends not counted), provided the lexer's
-    line numbers are right (`lineOk`) and no comment token's value ends with the CR of a CRLF
-    line end (`devCrComment`, the open finding crlf-comment-length — the only guard). -/
-theorem ordered_disjoint_inline_partial (cls : Classes) (text : Bytes) (toks : List Token)
+/-- **ordered_disjoint_inline, from the contract.**  … and every token stays inside its line as
+    the client counts it (UTF-16 units, CRLF or LF line ends not counted), for every token list
+    that honours the contract, has right line numbers (`lineOk`) and in which no comment's value
+    ends with a CR.  (For the lexer's own output the last hypothesis is a theorem:
+    `ordered_disjoint_inline` below.) -/
+theorem ordered_disjoint_inline_of_contract (cls : Classes) (text : Bytes) (toks : List Token)
     (hx : extentsB text toks = true) (hc : cutsB text toks = true)
     (hl : (mappedBody toks).all (fun t => lineOk text t && !devCrComment t) = true) :
     orderedDisjoint ((tokenize cls text toks).map absOf) = true ∧
@@ -229,13 +233,13 @@ theorem ordered_disjoint_inline_partial (cls : Classes) (text : Bytes) (toks : L
    tokGo_inline cls text (lineLens16 text) {} toks hx'.1 (measAll_of_cuts cls text toks hx'.1 hc)
      (inlineB_of_contract cls text toks hx'.1 hc hl)⟩
 
-/-- **covers_lexeme (partial).**  A token that is not cut out of a comment covers exactly the
-    lexeme of the lexer token it was made from (same line, same first and last UTF-16 unit, a
-    type of that kind, not empty), whenever that lexer token honours the contract (`extentOk`,
-    `cutOk`, `lineOk`) and is not a comment whose value ends with the CR of a CRLF line end
-    (`devCrComment`, the one open finding).  (`hplain` is a case distinction, not a guard: the
-    tokens cut out of a comment are the subject of `tag_tokens_placed`.) -/
-theorem covers_lexeme_partial (cls : Classes) (text : Bytes) (toks : List Token)
+/-- **covers_lexeme, from the contract.**  A token that is not cut out of a comment covers
+    exactly the lexeme of the lexer token it was made from (same line, same first and last UTF-16
+    unit, a type of that kind, not empty), whenever that lexer token honours the contract
+    (`extentOk`, `cutOk`, `lineOk`) and is not a comment whose value ends with a CR.  (`hplain`
+    is a case distinction, not a guard: the tokens cut out of a comment are the subject of
+    `tag_tokens_placed`.) -/
+theorem covers_lexeme_of_contract (cls : Classes) (text : Bytes) (toks : List Token)
     (s : SemToken) (t : Token) (h : (s, t) ∈ tokenizeSrc cls text toks)
     (hplain : t.ty = .comment → (extractTags cls text t).isEmpty = true)
     (hx : extentOk text t = true) (hc : cutOk text t = true) (hl : lineOk text t = true)
@@ -341,16 +345,6 @@ example : hypsHold W.codeText W.codeToks = true ∧ hypsHold W.quotedText W.quot
     hypsHold W.trimText W.trimToks = true ∧ hypsHold W.nonbmpText W.nonbmpToks = true ∧
     hypsHold W.tagbText W.tagbToks = true ∧ hypsHold W.tagsText W.tagsToks = true := by decide +kernel
 
-/-! ### The open deviation, on the real lexer's output for its witness text -/
-
-/-- `; note` + CRLF: the comment token is one unit longer than its line (its value ends with
-    the CR, `devCrComment`) although the lexer's output honours the contract. -/
-theorem crlf_comment_length_counterexample :
-    (tokenizeSrc Classes.ascii W.crlfText W.crlfToks).any (fun st =>
-      devCrComment st.2 && !inLine (lineLens16 W.crlfText) (absOf st.1)) = true ∧
-    (extentsB W.crlfText W.crlfToks && cutsB W.crlfText W.crlfToks &&
-      (mappedBody W.crlfToks).all (lineOk W.crlfText)) = true := by decide +kernel
-
 /-! ### The repaired deviations: what the PINNED tokenizer (HL/Model/SemTokPinned.lean) did on
     the real lexer's output for each witness text, and what the repaired one does -/
 
@@ -381,14 +375,18 @@ theorem pinned_quoted_commodity_length_counterexample :
       devQuoted st.2 && !coversTok W.quotedText st.2 (absOf st.1)) = true ∧
     allCover W.quotedText W.quotedToks = true := by decide +kernel
 
-/-- A payee after a no-break space started on that space; on a CRLF line a zero-length token
-    sat on the CR.  Repaired: the payee token starts at its first letter, no empty token. -/
+/-- A payee after a no-break space started on that space; on a CRLF line (whose CR the pinned
+    lexer reported as an empty Text token: `trim2PinnedToks` is the pinned lexer model's output,
+    `pinned_witness_tokens` in HL/Props/C17Lexer.lean)
+    a zero-length token sat on the CR.  Repaired: the payee token starts at its first letter, no
+    empty token — on the pinned lexer's stream and on the current one. -/
 theorem pinned_text_trimmed_position_counterexample :
     (Pinned.tokenizeSrc Classes.ascii W.trimToks).any (fun st =>
       devTextTrim W.trimText st.2 && !coversTok W.trimText st.2 (absOf st.1)) = true ∧
-    (Pinned.tokenizeSrc Classes.ascii W.trim2Toks).any (fun st =>
+    (Pinned.tokenizeSrc Classes.ascii W.trim2PinnedToks).any (fun st =>
       devTextTrim W.trim2Text st.2 && (absOf st.1).len == 0) = true ∧
-    allCover W.trimText W.trimToks = true ∧ allCover W.trim2Text W.trim2Toks = true := by decide +kernel
+    allCover W.trimText W.trimToks = true ∧ allCover W.trim2Text W.trim2PinnedToks = true ∧
+    allCover W.trim2Text W.trim2Toks = true := by decide +kernel
 
 /-- After `😀` the lexer's column is one less than the UTF-16 column; the repaired tokenizer
     counts UTF-16 units itself. -/
